@@ -1953,20 +1953,18 @@ PROPOSED = {
         'replay': 'A: module default { type Team { property rank -> int64; property idx25 -> int64; }; type Doc extending default::Team; } '
                   'B: module default { type User { property rank -> int64 { default := (1); }; }; type Doc extending default::User '
                   '{ property idx25 -> int64; }; }'},
-    'C10-sdl-explicit-default-residue': {
-        'property': 'C10',
-        'site': 'edb/schema/pointers.py / links.py / delta.py (a value that equals the field default but was stated explicitly, or a '
-                'field that was explicit before a pointer moved between parent and child, keeps / loses its "explicit" status '
-                'along the chain) as shown by edb/schema/ddl.py::sdl_text_from_schema',
-        'predicate': 'chain schema and directly migrated schema are equal by delta_schemas AND by the structural dump, and their SDL '
-                     'texts become identical once explicitly stated DEFAULT values (`on target delete restrict;`, '
-                     '`readonly := false;`, the `single` / `optional` qualifiers) are removed',
-        'what': 'DESCRIBE SCHEMA AS SDL of the stepwise schema differs from that of the directly migrated one only in explicitly '
-                'printed default values, e.g. chain `required single link author: File { readonly := false; };` vs direct '
-                '`required link author: File;` after moving the link from the parent to the child; or the chain lacks '
-                '`on target delete restrict;` that the target states explicitly',
-        'replay': 'S1: module default { abstract type P { multi link items -> default::P; }; }  S2: the same with '
-                  '`{ on target delete restrict; }`'},
+    'C02-inherited-policy-redeclared-cross-module': {
+        'property': 'C02',
+        'site': 'edb/schema/policies.py::_alter_begin (the "cannot alter the definition of inherited access policy" check depends on '
+                'the order in which apply_sdl lays out the declarations) + edb/edgeql/codegen.py::_process_special_set (no DDL '
+                'spelling for ALTER ACCESS POLICY ... access_kinds)',
+        'predicate': 'a type re-declares an access policy with the NAME of a policy it inherits from a base type that is declared in '
+                     'another module (e.g. child in `default`, base in `other`), with different action / access kinds',
+        'what': 'START MIGRATION accepts the target (the same two declarations inside ONE module are rejected: "cannot alter the '
+                'definition of inherited access policy"); the computed migration - also from the EMPTY schema - is then rejected at '
+                'COMMIT: EdgeQLSourceGeneratorError "unknown special field: \'access_kinds\'"',
+        'replay': 'B: module default { type C extending other::O { access policy pol_d allow insert using (true); }; } '
+                  'module other { abstract type O { access policy pol_d deny select; }; }'},
     'C02-drop-adjacent-bases': {
         'property': 'C02',
         'site': 'edb/schema/inheriting.py::_compute_new_bases (removes from the base list while iterating over it), via '
@@ -2151,6 +2149,9 @@ def classify_reject(step, from_empty, b_text):
     if from_empty and e.get('type') == 'InvalidReferenceError' and "property 'id' does not exist" in e.get('msg', '') \
             and 'access policy' in b_text and ':= (' in b_text:
         return 'C02-create-order-policy-computed'
+    if e.get('type') == 'EdgeQLSourceGeneratorError' and "unknown special field: 'access_kinds'" in e.get('msg', '') \
+            and 'access policy' in b_text and b_text.count('module ') >= 2:
+        return 'C02-inherited-policy-redeclared-cross-module'
     return None
 
 
